@@ -16,19 +16,23 @@ def hexVal (c : Char) : Option UInt8 :=
   else if 'a' ≤ c ∧ c ≤ 'f' then some (c.toNat - 87).toUInt8
   else none
 
-/-- tail-recursive hex parser for multi-megabyte streams (`x` prefix mandatory) -/
+structure HexAcc where
+  out : Array UInt8
+  hi : Option UInt8 := none
+  ok : Bool := true
+  first : Bool := true
+
+/-- hex parser for multi-megabyte streams (`x` prefix mandatory); one pass over the string, no intermediate list -/
 def unhexBig (s : String) : Option Bytes :=
-  match s.toList with
-  | 'x' :: cs =>
-    let rec go : List Char → Array UInt8 → Option (Array UInt8)
-      | [], acc => some acc
-      | [_], _ => none
-      | a :: b :: rest, acc =>
-        match hexVal a, hexVal b with
-        | some x, some y => go rest (acc.push (x * 16 + y))
-        | _, _ => none
-    (go cs (Array.mkEmpty (cs.length / 2))).map Array.toList
-  | _ => none
+  let r := s.foldl (fun (a : HexAcc) c =>
+    if !a.ok then a
+    else if a.first then (if c == 'x' then { a with first := false } else { a with ok := false })
+    else match hexVal c with
+      | none => { a with ok := false }
+      | some v => match a.hi with
+        | none => { a with hi := some v }
+        | some h => { a with out := a.out.push (h * 16 + v), hi := none }) { out := Array.mkEmpty (s.length / 2) }
+  if r.ok && !r.first && r.hi.isNone then some r.out.toList else none
 
 def parseIds (s : String) : Option (List Nat) :=
   if s == "-" then some [] else (s.splitOn ",").mapM String.toNat?
